@@ -318,10 +318,13 @@ def c09_case(args):
 
     env = {"v": {k: x.e for k, x in S.ints.items()}, "a": {k: x.e for k, x in S.atoms.items()}}
     try:
-        with cov:
-            paths = list(eng.explore(body, S.assume + S.space.constraints()))
+        paths = []
         base = S.space.constraints()
-        for pi, (kind, out, pc) in enumerate(paths):
+        from .serde_checks import _explore
+        for pi, (kind, out, pc) in enumerate(_explore(eng, body, S.assume + S.space.constraints(), cov)):
+            paths.append((kind, out, pc))
+            if len(res["violations"]) + len(res["unconfirmed"]) + res.get("violations_unreplayed", 0) >= 3:
+                break   # the case is red
             ob = f"{feats['desc']}|path{pi}"
             pcx = pc + [c for c in S.space.constraints() if not any(c is b for b in base)]
             if kind == "exc":
